@@ -2,9 +2,11 @@ import Genq.Props.C19
 open Genq.Types
 open Genq.Codec
 open Genq
+open Genq
 #print axioms C19_bad_typename_is_error
 #print axioms C19_dispatch_respects_typename
 #print axioms C19_error_cases
 #print axioms C19_codec_dispatch_sound
 #print axioms C19_codec_null_special_list
 #print axioms C19_codec_template_tie
+#print axioms C19_possible_types_tie
